@@ -48,11 +48,19 @@ def check(run, case):
                     written |= set(hosted)
                 elif case['layout']['single']:
                     written |= set(hosted)
-                elif unit in hosted:
-                    written.add(unit)
+                elif unit in hosted or any(unit == x % SM.RETIRED for x in hosted):
+                    written |= {x for x in hosted if x % SM.RETIRED == unit}
+    for idx, op, uid, lay in case.get('reconfig', []):
+        if op != 'del':
+            for x in real:
+                if x % SM.RETIRED == uid or case['layout']['single']:
+                    initial.setdefault(x, want[x] if x in written else None)
     for u in hosted:
+        if u not in want:
+            kinds['store'] = 'unit key %s exists on one side only' % (u,)
+            continue
         if real[u] != want[u]:
-            if real[u] != initial[u] and u not in written:
+            if initial.get(u) is not None and real[u] != initial[u] and u not in written:
                 kinds['interference'] = 'unit %s was addressed by no write request but its tables changed: %s' % (u, _d(real, initial, u))
             elif lossy:
                 kinds['store-diverged-after-lost-frame'] = 'unit %s differs from the model: %s' % (u, _d(real, want, u))
@@ -108,6 +116,51 @@ def sweep_case(r, front, framing, hosted, single, flags, unit, uniq, same_layout
     return {'front': front, 'framing': framing, 'layout': layout, 'flags': flags, 'reads': reads}
 
 
+def reconfig_case(r, front, framing, uniq, i):
+    """traffic, then context[new] = ... / del context[old] / context[old] = replacement, then traffic to old and new units"""
+    single = i % 5 == 4
+    hosted = sorted(r.sample(range(1, 40), r.randint(1, 3)))
+    base = SM.unit_layout(r, share=False, small=True)
+    units = {u: copy.deepcopy(base) for u in ([hosted[0]] if single else hosted)}
+    layout = {'single': single, 'zero_mode': bool(r.getrandbits(1)), 'units': units}
+    from .c04 import layout_addresses
+    addrs = layout_addresses(base, layout['zero_mode'])
+    flags = {'ignore_missing_slaves': bool(i % 2), 'broadcast_enable': (i % 3 == 0) and not front.startswith('tw')}
+    new = r.choice([u for u in range(1, 60) if u not in hosted])
+    tid = [0]
+
+    def wr(unit):
+        uniq[0] += 1
+        tid[0] += 1
+        return [[unit, tid[0], {'dir': REQ, 'fc': 6, 'address': r.choice(addrs['h'][2]), 'value': uniq[0] & 0xFFFF}]]
+
+    def rd(unit):
+        tid[0] += 1
+        a = r.choice(addrs['h'][2])
+        return [[unit, tid[0], {'dir': REQ, 'fc': 3, 'address': a, 'count': 1}]]
+    reads, reconfig = [], []
+    warm = i % 4 != 3                      # three of four histories see traffic before the first reconfiguration
+    if warm:
+        reads += [wr(hosted[0]), rd(hosted[-1])]
+    # The sync and asyncio handlers take their snapshot of the hosted unit ids before they wait for the next read, so
+    # the read that follows a reconfiguration is still filtered with the old set; the property does not say when a
+    # change of configuration takes effect, so that one read goes to a unit the change does not touch ("settle").
+    if single:
+        reconfig.append([len(reads), 'set', hosted[0], copy.deepcopy(base)])
+        reads += [rd(hosted[0]), wr(new), rd(hosted[0])]
+    else:
+        reconfig.append([len(reads), 'set', new, copy.deepcopy(base)])
+        reads += [rd(hosted[0]), wr(new), rd(new), wr(hosted[0]), wr(0)]
+        victim = hosted[0] if i % 2 else new
+        keep = new if victim == hosted[0] else hosted[0]
+        reconfig.append([len(reads), 'del', victim, None])
+        reads += [rd(keep), wr(victim), rd(victim), wr(keep), wr(0)]
+        if i % 3 == 1:
+            reconfig.append([len(reads), 'set', victim, copy.deepcopy(base)])
+            reads += [rd(keep), rd(victim), wr(victim), rd(victim)]
+    return {'front': front, 'framing': framing, 'layout': layout, 'flags': flags, 'reads': reads, 'reconfig': reconfig}
+
+
 def run(run):
     r = run.rng('main')
     uniq = [0]
@@ -145,6 +198,22 @@ def run(run):
                      sample={'front': front, 'framing': framing, 'hosted': sorted(case['layout']['units']), 'single': case['layout']['single'], 'flags': case['flags'],
                              'reads': [[(u, m['fc']) for u, t, m in rd] for rd in case['reads']][:6], 'verdict': 'agrees' if ok else 'differs'},
                      sample_class=('hist', front, framing))
+    # (3) run-time reconfiguration through the context's mapping interface between requests
+    n3 = run.scale(6, 600)
+    for front, framing in FRONTS:
+        for i in range(n3):
+            idx += 1
+            if not run.mine(idx):
+                continue
+            case = reconfig_case(r, front, framing, uniq, i)
+            ok = check(run, case)
+            run.count('reconfig_histories')
+            run.case(h64(repr(case)), True,
+                     sample={'front': front, 'framing': framing, 'hosted': sorted(case['layout']['units']), 'single': case['layout']['single'], 'flags': case['flags'],
+                             'reconfig': [(a, b, c) for a, b, c, _ in case['reconfig']],
+                             'reads': [[(u, m['fc']) for u, t, m in rd] for rd in case['reads']][:8], 'verdict': 'agrees' if ok else 'differs'},
+                     sample_class=('reconfig', front, framing))
+    run.floor('run-time reconfiguration histories', run.counters.get('reconfig_histories', 0), 30 if run.shard is None else 1)
     run.floor('per-unit dumps compared', run.counters.get('unit_dumps_compared', 0), 5000 if run.shard is None else 300)
     run.floor('clean-region histories', run.counters.get('clean_region_cases', 0), 1500 if run.shard is None else 100)
     run.floor('histories per front-end (min)', min(run.counters.get('histories:%s' % f, 0) for f in FE.ALL), 100 if run.shard is None else 5)
@@ -152,5 +221,8 @@ def run(run):
 
 def replay(run, case):
     case['layout']['units'] = {int(k): v for k, v in case['layout']['units'].items()}
+    for ev in case.get('reconfig', []):
+        if ev[3] is not None and 'alias' not in ev[3]:
+            raise ValueError('bad reconfig layout')
     print('agrees' if check(run, case) else 'differs')
     run.evaluations += 1
